@@ -32,6 +32,7 @@ import (
 	"os"
 	"path/filepath"
 	"regexp"
+	"runtime"
 	"sort"
 	"strconv"
 	"strings"
@@ -513,21 +514,97 @@ func firstDiff(a, b []string) string {
 }
 
 // timed runs f in its own goroutine and reports whether it returned within d (the goroutine is left behind
-// otherwise: the caller must not touch what f writes).
+// otherwise: the caller must not touch what f writes).  A goroutine that is found PARKED ON A LOCK (sync.Mutex /
+// RWMutex / semaphore / channel wait, read off the runtime's goroutine dump) at two looks one second apart, after
+// at least two seconds, is given up early: nothing else runs in a session, so nobody is going to release that
+// lock; a goroutine that is merely slow gets the whole of d.
 func timed(d time.Duration, f func()) bool {
 	done := make(chan struct{})
+	idc := make(chan string, 1)
 	go func() {
 		defer close(done)
+		idc <- curGoroutineHeader()
 		f()
 	}()
-	tm := time.NewTimer(d)
-	defer tm.Stop()
-	select {
-	case <-done:
+	wait := func(x time.Duration) bool {
+		tm := time.NewTimer(x)
+		defer tm.Stop()
+		select {
+		case <-done:
+			return true
+		case <-tm.C:
+			return false
+		}
+	}
+	start := time.Now()
+	first := 2 * time.Second
+	if first > d {
+		first = d
+	}
+	if wait(first) {
 		return true
-	case <-tm.C:
+	}
+	id := <-idc
+	parked := 0
+	for time.Since(start) < d {
+		if goroutineParkedOnLock(id) {
+			parked++
+			if parked >= 2 {
+				select {
+				case <-done:
+					return true
+				default:
+					return false
+				}
+			}
+		} else {
+			parked = 0
+		}
+		if wait(time.Second) {
+			return true
+		}
+	}
+	return false
+}
+
+// curGoroutineHeader: "goroutine 123 " of the calling goroutine.
+func curGoroutineHeader() string {
+	buf := make([]byte, 64)
+	buf = buf[:runtime.Stack(buf, false)]
+	if i := strings.IndexByte(string(buf), '['); i > 0 {
+		return string(buf[:i])
+	}
+	return ""
+}
+
+// goroutineParkedOnLock looks the goroutine up in the dump of all goroutines and says whether its wait reason is a
+// lock / semaphore / channel wait.
+func goroutineParkedOnLock(header string) bool {
+	if header == "" {
 		return false
 	}
+	buf := make([]byte, 1<<20)
+	for {
+		n := runtime.Stack(buf, true)
+		if n < len(buf) {
+			buf = buf[:n]
+			break
+		}
+		buf = make([]byte, 2*len(buf))
+	}
+	for _, line := range strings.Split(string(buf), "\n") {
+		if !strings.HasPrefix(line, header+"[") {
+			continue
+		}
+		st := line[len(header)+1:]
+		for _, p := range []string{"sync.", "semacquire", "chan ", "select"} {
+			if strings.HasPrefix(st, p) {
+				return true
+			}
+		}
+		return false
+	}
+	return false
 }
 
 func clean(s string) string { return strings.ReplaceAll(s, "; ", ", ") }
@@ -622,7 +699,8 @@ func (r *runner) fault(desc string, k, n int, prog string, tail bool) (string, s
 	preRun := s.w.observeRunning()
 	// limit for every query batch / retry after the failed operation: a manager that left a mutex locked on the
 	// error path never answers again - reported as an oracle violation instead of hanging (or dying from Go's
-	// deadlock detector).  Generous: 200 x what the same queries took before the operation, at least 8 s.
+	// deadlock detector).  Generous: 200 x what the same queries took before the operation, at least 8 s; given up
+	// earlier only if the goroutine is seen parked on a lock (see timed).
 	limit := 200 * time.Since(obsStart)
 	if limit < 8*time.Second {
 		limit = 8 * time.Second
@@ -715,7 +793,7 @@ func (r *runner) fault(desc string, k, n int, prog string, tail bool) (string, s
 	}
 	noAnswer := func(what string) (string, string) {
 		abandoned = true
-		viol = append(viol, fmt.Sprintf("C10 key=%s.no-answer-after-failure.%s: %s k=%d/%d (%s) failed and was rolled back, afterwards %s did not return within the time limit (200 x the duration of the same queries before the operation, at least 8 s): the manager no longer answers as before, the retry cannot succeed",
+		viol = append(viol, fmt.Sprintf("C10 key=%s.no-answer-after-failure.%s: %s k=%d/%d (%s) failed and was rolled back, afterwards %s did not return (still parked on a lock after 3 s, or not back within 200 x the duration of the same queries before the operation and at least 8 s): the manager no longer answers as before, the retry cannot succeed",
 			opName, what, desc, k, n, failedSite, what))
 		return fmt.Sprintf("res=err disk=%s mem=%s retry=differs", disk, mem), strings.Join(viol, "; ")
 	}
